@@ -162,7 +162,7 @@ func init() {
 		shardPrelude["c19l"] = shardPrelude["c19r"]
 		shardCheck["c19l"] = "check_c19l"
 		e.perShard = 1500
-		e.rep.Rule = "range/between/until: all a,b,n in [-8,8] plus the int extremes (minint, minint+1, maxint-1, maxint) crossed with small values, cap 64 values per iterator; groupBy: all slice lengths 0..40 x group counts -1..12 in both shipped implementations over 5 element/pointer variants; len over strings/slices/arrays/maps/pointers; non-trivial = yields at least one element or one group; distinct by (helper,args)"
+		e.rep.Rule = "range/between/until: all a,b,n in [-8,8] plus the int extremes (minint, minint+1, maxint-1, maxint) crossed with small values, cap 64 values per iterator; several iterators alive at once and polled in random interleavings, also after exhaustion, directly and through nested template loops; groupBy: all slice lengths 0..40 x group counts -1..12 in both shipped implementations over 5 element/pointer variants; len over strings/slices/arrays/maps/pointers; non-trivial = yields at least one element or one group; distinct by (helper,args)"
 		ext := []int{math.MinInt, math.MinInt + 1, math.MinInt + 2, math.MaxInt - 2, math.MaxInt - 1, math.MaxInt}
 		vals := []int{}
 		for i := -8; i <= 8; i++ {
@@ -216,6 +216,91 @@ func init() {
 				}
 				b := a + e.Rng.Intn(120) - 20
 				one(e.Rng.Pick([]string{"range", "between", "until"}), a, b)
+			}
+		}
+		// several iterators alive at once, and iterators polled again after they were exhausted:
+		// each yields its own closed-form sequence and then nil for ever, whatever the others do
+		{
+			type live struct {
+				it   iterators.Iterator
+				want []int
+				got  []int
+				done int
+			}
+			mk := func(k int) *live {
+				a, b := e.Rng.Intn(9)-4, e.Rng.Intn(9)-2
+				switch k % 3 {
+				case 0:
+					l := &live{it: iterators.Range(a, b)}
+					for x := a; x <= b; x++ {
+						l.want = append(l.want, x)
+					}
+					return l
+				case 1:
+					l := &live{it: iterators.Between(a, b)}
+					for x := a + 1; x < b; x++ {
+						l.want = append(l.want, x)
+					}
+					return l
+				default:
+					l := &live{it: iterators.Until(b)}
+					for x := 0; x < b; x++ {
+						l.want = append(l.want, x)
+					}
+					return l
+				}
+			}
+			trials := 300
+			if e.Thorough() {
+				trials = 20000
+			}
+			for t := 0; t < trials; t++ {
+				var ls []*live
+				steps := 5 + e.Rng.Intn(40)
+				bad := ""
+				for s := 0; s < steps && bad == ""; s++ {
+					if len(ls) == 0 || e.Rng.Intn(4) == 0 {
+						ls = append(ls, mk(e.Rng.Intn(3)))
+						continue
+					}
+					l := ls[e.Rng.Intn(len(ls))]
+					v := l.it.Next()
+					if v == nil {
+						l.done++
+						if len(l.got) != len(l.want) {
+							bad = fmt.Sprintf("an iterator stopped after %v, want %v", l.got, l.want)
+						}
+						continue
+					}
+					if l.done > 0 {
+						bad = fmt.Sprintf("an exhausted iterator (%v) yielded %v when polled again", l.want, v)
+						continue
+					}
+					n, _ := v.(int)
+					l.got = append(l.got, n)
+					if len(l.got) > len(l.want) || l.want[len(l.got)-1] != n {
+						bad = fmt.Sprintf("an iterator yielded %v, want a prefix of %v", l.got, l.want)
+					}
+				}
+				e.rep.Evaluations++
+				e.Count("interleaved-iterators")
+				if bad != "" {
+					e.Violate("c19-interleaved", "interleaved use of several range/between/until iterators: "+bad, map[string]interface{}{"trial": t})
+					break
+				}
+			}
+			// the same through templates: nested loops, an iterator kept in a variable and looped twice
+			for _, tc := range [][2]string{
+				{`<%= for (a) in range(1,2) { %><%= for (b) in range(5,6) { %><%= a %><%= b %> <% } %><% } %>`, "15 16 25 26 "},
+				{`<% let r = until(2) %><%= for (x) in r { %><%= x %><% } %>|<%= for (x) in r { %><%= x %><% } %>|<%= for (a) in range(1,2) { %><%= for (b) in range(5,6) { %><%= a %><%= b %> <% } %><% } %>`, "01||15 16 25 26 "},
+				{`<% let r = between(0,3) %><% let q = range(7,8) %><%= for (x) in r { %><%= x %><%= for (y) in q { %>(<%= y %>)<% } %><% } %>|<%= for (z) in until(2) { %><%= z %><% } %>`, "1(7)(8)2|01"},
+			} {
+				o := runRender(RCase{Tmpl: tc[0]})
+				e.rep.Evaluations++
+				e.Count("interleaved-iterators-template")
+				if o.Class != "OK" || o.Out != tc[1] {
+					e.Violate("c19-interleaved", fmt.Sprintf("%s rendered %q (%s %s), want %q", tc[0], o.Out, o.Class, o.Msg, tc[1]), map[string]interface{}{"tmpl": tc[0], "observed": o})
+				}
 			}
 		}
 		// groupBy
